@@ -8,6 +8,8 @@ from common import cerberus, cerrors, real_error, canon_error, canon_errors
 from gen import Gen
 
 LEVEL = "proof"
+import vrun as _vrun_refs
+_vrun_refs.P_REFS = 0.15      # some generated schemas carry registry references (validator-bound registries)
 COQ_FILES = ['theories/Model/Tree.v', 'theories/Proofs/TreeProofs.v', 'theories/Proofs/PathProofs.v', 'theories/Properties/C11.v']
 FACT_GROUPS = ["F8"]
 ALLOWED_AXIOMS = []
